@@ -1,5 +1,6 @@
 """C09 — annotate accumulates information and never drops any."""
 import json
+import re
 import os
 
 from core import Property, Stream, enc, dec, enc_list, dec_list, run_driver
@@ -150,6 +151,11 @@ class HistoryStream(Stream):
                 s = self._step(rng, shorthands, allow_style=True)
                 s["dot"] = dot
                 ops.append(s)
+            if re.search(r"\r(?!\n)", f.get("body", "")):
+                # lone-CR files: `--skip-existing` asks contains_reuse_info before the line endings are folded and may not see the
+                # header (a documented boundary, docs/DESIGN-TRIAGE.md item 6: what is skipped is not constrained by the property);
+                # the model folds first, so the option is not combined with such files
+                ops = [dict(o, skip_existing=False) for o in ops]
             yield {"file": f, "ops": ops}
         # the same holder stated with different years, merged at some point
         for k in range(60 if thorough else 12):
